@@ -123,6 +123,17 @@ struct Collector {
 }
 
 impl Collector {
+    /// Failed attempts of any cause (rejected or broken requests, refused connections, connections closed or gone
+    /// dark under the client) in a row for this signal: every fault source asks before it strikes, so that a batch
+    /// is never failed more often than its retry budget allows - a batch that IS given up is then the client's doing.
+    fn may_fail(&self, signal: Signal) -> bool {
+        *self.consecutive_failures.lock().unwrap().entry(signal).or_insert(0) < 6
+    }
+
+    fn count_failure(&self, signal: Signal) {
+        *self.consecutive_failures.lock().unwrap().entry(signal).or_insert(0) += 1;
+    }
+
     fn note(&self, s: String) {
         let now = self.sched.now();
         self.trace.lock().unwrap().push(format!("[t={now:?}] collector: {s}"));
@@ -333,6 +344,7 @@ async fn http1_conn(mut stream: SimStream, col: Arc<Collector>, host: HostCfg, c
         let resp = format!("HTTP/1.1 {status} Sim\r\ncontent-type: application/json\r\ncontent-length: {}\r\n\r\n{body}", body.len());
         let ok = stream.write_all(resp.as_bytes()).await.is_ok();
         entry.acked = ok && (status == 200 || status == 204);
+        let acked_now = entry.acked;
         entry.done_at = Some(col.sched.now());
         col.log.lock().unwrap().push(entry);
         if !ok {
@@ -340,7 +352,9 @@ async fn http1_conn(mut stream: SimStream, col: Arc<Collector>, host: HostCfg, c
         }
         // servers close connections they consider idle (or send `connection: close` semantics without saying so):
         // the client finds out when it next uses the connection
-        if col.sched.lock().choices.chance(1, 12) {
+        if acked_now && col.may_fail(host.signal) && col.sched.lock().choices.chance(1, 12) {
+            // (the client's next attempt on this connection fails without reaching the collector: count it now)
+            col.count_failure(host.signal);
             *col.fired.lock().unwrap().entry("server_closed_kept_alive_connection").or_insert(0) += 1;
             col.note(format!("conn {conn}: closed by the server after the response (idle timeout)"));
             return;
@@ -381,7 +395,8 @@ async fn grpc_conn(stream: SimStream, col: Arc<Collector>, host: HostCfg, conn: 
             Some(Err(_)) => return,
             Some(Ok((req, respond))) => {
                 served += 1;
-                if wedge_at == Some(served) {
+                if wedge_at == Some(served) && col.may_fail(host.signal) {
+                    col.count_failure(host.signal);
                     *col.fired.lock().unwrap().entry("connection_wedged").or_insert(0) += 1;
                     col.wedged.lock().unwrap().insert(host.signal);
                     col.note(format!("conn {conn}: goes dark at its request #{served} (stays open, answers nothing any more)"));
@@ -628,9 +643,10 @@ impl Hooks for OtlpHooks {
             // an occasional refused connection
             {
                 let mut left = col.faults_left.lock().unwrap();
-                let refuse = *left > 0 && col.sched.lock().choices.chance(1, 12);
+                let refuse = *left > 0 && col.may_fail(cfg.signal) && col.sched.lock().choices.chance(1, 12);
                 if refuse {
                     *left -= 1;
+                    col.count_failure(cfg.signal);
                     *col.fired.lock().unwrap().entry("connect_refused").or_insert(0) += 1;
                     col.note(format!("connection to {host} refused"));
                     return Err(std::io::Error::new(std::io::ErrorKind::ConnectionRefused, "simulated connect failure"));
